@@ -73,7 +73,10 @@ type Script struct {
 	ClaimExtra []int     `json:"claim_extra,omitempty"`
 	// Prefill heights of the main branch already in the stores.
 	Prefill int     `json:"prefill,omitempty"`
-	Events  []Event `json:"events"`
+	// InitLies[i], if Mut != "", mutates the reply of peer i to the first
+	// getheaders it receives (a dishonest peer during initial sync).
+	InitLies []Event `json:"init_lies,omitempty"`
+	Events   []Event `json:"events"`
 }
 
 // Delivered describes what an event actually put on the wire.
@@ -98,6 +101,12 @@ type Observer interface {
 	Finished(s *Sim)
 }
 
+// PreObserver is an optional extension of Observer: Before is called right
+// before an event is applied (after any automatic reconnect wait).
+type PreObserver interface {
+	Before(s *Sim, index int, e Event)
+}
+
 // GenOpts biases the script generator.
 type GenOpts struct {
 	MaxBase, MaxFuture   int
@@ -116,7 +125,7 @@ func GenScript(t *rapid.T, o GenOpts) Script {
 	base := rapid.IntRange(0, o.MaxBase).Draw(t, "base")
 	fut := rapid.IntRange(1, o.MaxFuture).Draw(t, "future")
 	ws := kit.WorldSpec{P: p, Seed: rapid.Uint64Range(0, 7).Draw(t, "wseed"), Base: base, Future: fut,
-		Pace: rapid.IntRange(0, 3).Draw(t, "pace"), Tx: o.Tx}
+		Pace: rapid.SampledFrom([]int{0, 1, 2, 3, 4, 4}).Draw(t, "pace"), Tx: o.Tx}
 	ws.Branches = kit.GenBranches(t, base+fut, base, o.MaxBranches, o.MaxBLen)
 	if o.Checkpoints && base+fut > 2 {
 		n := rapid.IntRange(0, 3).Draw(t, "ncp")
@@ -185,6 +194,12 @@ func GenScript(t *rapid.T, o GenOpts) Script {
 			ce = rapid.IntRange(1, 50).Draw(t, "claimextra")
 		}
 		sc.ClaimExtra = append(sc.ClaimExtra, ce)
+		il := Event{}
+		if rapid.IntRange(0, 2).Draw(t, "initlie") == 0 {
+			il.Mut = kit.GenMut(t, "ilmut")
+			il.K = rapid.IntRange(0, 12).Draw(t, "ilk")
+		}
+		sc.InitLies = append(sc.InitLies, il)
 	}
 	kinds := []string{"view", "view", "view", "headers", "headers", "headers", "inv", "advance", "drop", "connect", "lie", "garbage"}
 	evGen := rapid.Custom(func(t *rapid.T) Event {
@@ -202,13 +217,13 @@ func GenScript(t *rapid.T, o GenOpts) Script {
 			}
 			switch rapid.IntRange(0, 5).Draw(t, "mutp") {
 			case 0, 1:
-				e.Mut = rapid.SampledFrom(kit.HeaderMuts).Draw(t, "mut")
+				e.Mut = kit.GenMut(t, "mut")
 				e.K = rapid.IntRange(0, e.Len-1).Draw(t, "k")
 			case 2:
 				e.Mode = rapid.SampledFrom([]string{"shuffle", "gap", "dupfirst"}).Draw(t, "mode")
 			}
 		case "lie":
-			e.Mut = rapid.SampledFrom(kit.HeaderMuts).Draw(t, "mut")
+			e.Mut = kit.GenMut(t, "mut")
 			e.K = rapid.IntRange(0, 8).Draw(t, "k")
 		case "inv":
 			e.To = drawRefT(t, "i")
@@ -254,6 +269,9 @@ func Exec(t *testing.T, sc Script, cfg Config, obs ...Observer) Result {
 			p.view = resolve(sc.Views[i])
 			if i < len(sc.ClaimExtra) && sc.ClaimExtra[i] > 0 {
 				p.ClaimHeight = p.view.Height + int32(sc.ClaimExtra[i])
+			}
+			if i < len(sc.InitLies) && sc.InitLies[i].Mut != "" {
+				s.lies[i] = &liePlan{K: sc.InitLies[i].K, Mut: sc.InitLies[i].Mut}
 			}
 			pi := i
 			p.Override = func(p *Peer, m wire.Message) bool {
@@ -305,6 +323,11 @@ func Exec(t *testing.T, sc Script, cfg Config, obs ...Observer) Result {
 					if !s.Advance(time.Duration(6*(k+1)) * time.Second) {
 						return
 					}
+				}
+			}
+			for _, o := range obs {
+				if po, ok := o.(PreObserver); ok {
+					po.Before(s, i, e)
 				}
 			}
 			d := &Delivered{Event: e, Index: i, BadFrom: -1, At: Now()}
